@@ -13,29 +13,39 @@ import (
 // replayTests maps a function key to the replay test (in /verif/replay) that exercises the REAL
 // function on a concrete input space and evaluates its contract clauses.
 var replayTests = map[string]string{
-	"wire:(*injectorGen).funcProviderCall": "TestReplay_funcProviderCall",
-	"wire:injectPass":                      "TestReplay_injectPass",
-	"wire:funcOutput":                      "TestReplay_funcOutput",
-	"wire:buildProviderMap":                "TestReplay_frontend",
-	"wire:buildProviderMap$1":              "TestReplay_frontend",
-	"wire:verifyArgsUsed":                  "TestReplay_verifyArgsUsed",
-	"wire:checkField":                      "TestReplay_frontend",
-	"wire:isPrevented":                     "TestReplay_frontend",
-	"wire:solve":                           "TestReplay_solve",
-	"wire:(*gen).inject":                   "TestReplay_inject",
-	"wire:processStructProvider":           "TestReplay_frontend",
-	"wire:processFieldsOf":                 "TestReplay_frontend",
-	"wire:bindShouldUsePointer":            "TestReplay_frontend",
-	"wire:(*objectCache).get":              "TestReplay_frontend",
-	"wire:copyAST$1":                       "TestReplay_copyAST",
-	"wire:processInterfaceValue":           "TestReplay_frontend",
-	"wire:processBind":                     "TestReplay_frontend",
-	"wire:zeroValue":                       "TestReplay_zeroValue",
-	"main:(*diffCmd).Execute":              "TestReplay_diffCmd",
-	"main:(*genCmd).Execute":               "TestReplay_genCmd",
+	"wire:(*injectorGen).funcProviderCall":   "TestReplay_funcProviderCall",
+	"wire:injectPass":                        "TestReplay_generate",
+	"wire:(*injectorGen).structProviderCall": "TestReplay_generate",
+	"wire:(*injectorGen).fieldExpr":          "TestReplay_generate",
+	"wire:(*injectorGen).valueExpr":          "TestReplay_generate",
+	"wire:(*injectorGen).nameInInjector":     "TestReplay_generate",
+	"wire:disambiguate":                      "TestReplay_generate",
+	"wire:typeVariableName":                  "TestReplay_generate",
+	"wire:(*gen).qualifyImport":              "TestReplay_generate",
+	"wire:(*gen).frame":                      "TestReplay_generate",
+	"wire:processFieldsOf":                   "TestReplay_generate",
+	"wire:processValue":                      "TestReplay_generate",
+	"wire:generateInjectors":                 "TestReplay_generate",
+	"wire:funcOutput":                        "TestReplay_funcOutput",
+	"wire:buildProviderMap":                  "TestReplay_frontend",
+	"wire:buildProviderMap$1":                "TestReplay_frontend",
+	"wire:verifyArgsUsed":                    "TestReplay_verifyArgsUsed",
+	"wire:checkField":                        "TestReplay_frontend",
+	"wire:isPrevented":                       "TestReplay_frontend",
+	"wire:solve":                             "TestReplay_generate",
+	"wire:(*gen).inject":                     "TestReplay_generate",
+	"wire:processStructProvider":             "TestReplay_frontend",
+	"wire:bindShouldUsePointer":              "TestReplay_frontend",
+	"wire:(*objectCache).get":                "TestReplay_frontend",
+	"wire:copyAST$1":                         "TestReplay_copyAST",
+	"wire:processInterfaceValue":             "TestReplay_frontend",
+	"wire:processBind":                       "TestReplay_frontend",
+	"wire:zeroValue":                         "TestReplay_zeroValue",
+	"main:(*diffCmd).Execute":                "TestReplay_diffCmd",
+	"main:(*genCmd).Execute":                 "TestReplay_genCmd",
 }
 
-var clauseRe = regexp.MustCompile(`/(ensures#\d+|requires-preserved#\d+|each#\d+|frame#\d+|loop\d+/inv#\d+|panic#\d+|typeassert#\d+|nilderef#\d+|index#\d+|typednil#\d+|nilelem#\d+|nilmap#\d+|contract-mismatch)`)
+var clauseRe = regexp.MustCompile(`/(ensures#\d+|lensures#\d+|requires@[^ ]*#\d+|atnew:[A-Za-z]*#\d+|requires-preserved#\d+|each#\d+|frame#\d+|loop\d+/inv#\d+|panic#\d+|typeassert#\d+|nilderef#\d+|index#\d+|typednil#\d+|nilelem#\d+|nilmap#\d+|contract-mismatch)`)
 
 // runConcretiser tries to reproduce a failed obligation on the real code: the replay test of the
 // obligation's function is injected into the real package with `go test -overlay` and run; a
@@ -76,7 +86,11 @@ func runConcretiser(v *Verifier, prop string, ob *Obligation, rp *Replay) {
 	os.WriteFile(ovPath, ov, 0644)
 	cmd := exec.Command("go", "test", "-overlay", ovPath, "-vet=off", "-count=1", "-timeout", "120s", "-run", "^"+test+"$", "./"+pkgDir)
 	cmd.Dir = v.RepoDir
-	cmd.Env = append(os.Environ(), "GOFLAGS=-mod=mod", "GOPROXY=off", "GOSUMDB=off", "GOTOOLCHAIN=local", "GOVC_OBLIGATION="+ob.Name, "GOVC_CLAUSE_TEXT="+ob.Text)
+	clauseID := ""
+	if m := clauseRe.FindStringSubmatch(ob.Name); m != nil {
+		clauseID = m[1]
+	}
+	cmd.Env = append(os.Environ(), "GOFLAGS=-mod=mod", "GOPROXY=off", "GOSUMDB=off", "GOTOOLCHAIN=local", "GOVC_CLAUSE="+clauseID, "GOVC_OBLIGATION="+ob.Name, "GOVC_CLAUSE_TEXT="+ob.Text, "GOVC_FN="+ob.Fn)
 	out, _ := cmd.CombinedOutput()
 	text := string(out)
 	rp.ReplayTest = fmt.Sprintf("cd %s && go test -overlay <%s> -vet=off -run '^%s$' ./%s", v.RepoDir, strings.Join(files, ","), test, pkgDir)
